@@ -3,8 +3,8 @@
 
    Time is a logical clock [now] (nanoseconds, Z) advanced only by the environment label [LTick];
    a timer armed for deadline dl may fire at ANY clock value >= dl (arbitrarily late), exactly the
-   guarantee package time gives.  time.Duration is an int64: the two places where xtime.go does
-   arithmetic on durations that can leave the int64 range are modelled with [wrap64].
+   guarantee package time gives.  time.Duration is an int64: every arithmetic operation on durations in
+   schedule() (negation, the saturation test, the additions) is modelled with [wrap64].
 
    Part 1  SleepContext: the decision function [sleep_decide] and an LTS for one call
            (decision, NewTimer, a two-arm select against ctx.Done()).
@@ -274,27 +274,79 @@ Definition stop_timer (tms : list timer) (k : nat) : list timer :=
   | None => tms
   end.
 
-(* does schedule() call rand.Int63n?  [guarded = true] is the code in /repo (only when jitter > 0);
-   [guarded = false] is the historical code (always). *)
+(* Three versions of the computation of [next] in schedule():
+     VCur        the code in /repo: the offset is drawn as a magnitude rand.Int63n(jitter) and a sign bit
+                 rand.Int63()&1, and added to d with saturation at math.MaxInt64;
+     VOrig       the ORIGINAL code  next += Duration(rand.Int63n(int64(jitter*2))) - jitter  under
+                 [if t.jitter > 0]  (kept for the _refuted witnesses only: jitter*2 overflows for
+                 jitter >= 2^62 and rand.Int63n panics; d + offset overflows for d near max_i64);
+     VUnguarded  the historical code: the same without the guard [if t.jitter > 0]. *)
+Inductive ver := VUnguarded | VOrig | VCur.
+
+(* ---- the original computation (VOrig / VUnguarded) ---- *)
+
+(* does schedule() call rand.Int63n(int64(jitter*2))? *)
 Definition calls_rand (guarded : bool) (j : Z) : bool := negb guarded || (0 <? j).
 
 (* the argument handed to rand.Int63n: int64(t.jitter*2) *)
 Definition rand_arg (j : Z) : Z := wrap64 (2 * j).
 
 (* which oracle values r are possible results of rand.Int63n (r = 0 when it is not called or panics) *)
-Definition r_valid (guarded : bool) (j r : Z) : bool :=
+Definition r_valid_orig (guarded : bool) (j r : Z) : bool :=
   if calls_rand guarded j && (0 <? rand_arg j) then (0 <=? r) && (r <? rand_arg j) else r =? 0.
 
 (* next := t.d [+ Int63n(2*jitter) - jitter];  None = rand.Int63n panics (argument <= 0) *)
-Definition next_delay (guarded : bool) (d j r : Z) : option Z :=
+Definition next_orig (guarded : bool) (d j r : Z) : option Z :=
   if calls_rand guarded j
   then if rand_arg j <=? 0 then None else Some (wrap64 (d + (r - j)))
   else Some d.
 
+(* ---- the code in /repo (VCur) ---- *)
+
+(*  next := t.d
+    if t.jitter > 0 {
+        offset := time.Duration(rand.Int63n(int64(t.jitter)))        // m
+        if rand.Int63()&1 == 1 { offset = -offset - 1 }               // b
+        if offset > 0 && next > math.MaxInt64-offset { next = math.MaxInt64 } else { next += offset }
+    }
+   m is the result of rand.Int63n(int64(t.jitter)) (0 <= m < jitter; the argument is > 0 in this branch,
+   so rand.Int63n does not panic), b the low bit of rand.Int63().  Every int64 operation is explicit. *)
+Definition jitter_offset (m : Z) (b : bool) : Z := if b then wrap64 (wrap64 (- m) - 1) else m.
+
+Definition next_cur (d j m : Z) (b : bool) : Z :=
+  if 0 <? j
+  then let offset := jitter_offset m b in
+       if (0 <? offset) && (wrap64 (max_i64 - offset) <? d) then max_i64 else wrap64 (d + offset)
+  else d.
+
+(* The label of a schedule() step carries ONE oracle value r for the two draws: the 2*jitter outcomes
+   (m, b) in [0, jitter) x {0, 1} are numbered 0 .. 2*jitter-1 (a mathematical integer, not an int64) in
+   the order of the offset they produce, -jitter .. jitter-1:  r < jitter  is  b = 1, m = jitter-1-r
+   (offset r - jitter);  r >= jitter  is  b = 0, m = r - jitter  (offset r - jitter).  [draws] decodes;
+   XTimeProofs.draws_valid / draws_onto / draws_unique: it is a bijection between the valid r and the valid
+   pairs (m, b).  r = 0 is the smallest offset (the earliest deadline), which is what the matcher tries. *)
+Definition draws (j r : Z) : Z * bool := if r <? j then (j - 1 - r, true) else (r - j, false).
+
+(* which oracle values are possible (r = 0 when rand is not called) *)
+Definition r_valid (v : ver) (j r : Z) : bool :=
+  match v with
+  | VCur => if 0 <? j then (0 <=? r) && (r <? 2 * j) else r =? 0
+  | VOrig => r_valid_orig true j r
+  | VUnguarded => r_valid_orig false j r
+  end.
+
+(* the delay handed to time.AfterFunc;  None = schedule() panics (inside rand.Int63n) *)
+Definition next_delay (v : ver) (d j r : Z) : option Z :=
+  match v with
+  | VCur => Some (let '(m, b) := draws j r in next_cur d j m b)
+  | VOrig => next_orig true d j r
+  | VUnguarded => next_orig false d j r
+  end.
+
 (* t.schedule() with oracle r, executed while holding t.m.  None = it panicked. *)
-Definition schedule (guarded : bool) (s : st) (r : Z) : option st :=
+Definition schedule (v : ver) (s : st) (r : Z) : option st :=
   let tms1 := match tmr s with Some k => stop_timer (timers s) k | None => timers s end in
-  match next_delay guarded (fd s) (fj s) r with
+  match next_delay v (fd s) (fj s) r with
   | None => None
   | Some nx =>
       let g := gen s + 1 in
@@ -330,7 +382,7 @@ Definition op_eqb (a b : op) : bool :=
   | _, _ => false
   end.
 
-Definition step_gen (guarded : bool) (s : st) (l : lab) : option st :=
+Definition step_gen (v : ver) (s : st) (l : lab) : option st :=
   match l with
   | LTick t => if now s <=? t then Some (set_now s t) else None
   | LCall th o =>
@@ -367,9 +419,9 @@ Definition step_gen (guarded : bool) (s : st) (l : lab) : option st :=
       | Some (PLocked o) =>
           match o with
           | ONew d j | OReset d j =>
-              if r_valid guarded j r
+              if r_valid v j r
               then let s1 := set_fj (set_fd s d) j in
-                   match schedule guarded s1 r with
+                   match schedule v s1 r with
                    | Some s2 => Some (set_pc (set_stopped s2 false) th (PUnlock o))
                    | None =>
                        let s3 := set_pc (set_mu s1 MDead) th (PPanicked o) in
@@ -452,8 +504,8 @@ Definition step_gen (guarded : bool) (s : st) (l : lab) : option st :=
       | Some tm =>
           match tm_cb tm with
           | CbSched =>
-              if r_valid guarded (fj s) r
-              then match schedule guarded s r with
+              if r_valid v (fj s) r
+              then match schedule v s r with
                    | Some s2 =>
                        match nth_error (timers s2) k with
                        | Some tm2 => Some (set_tm s2 k (tm_set_cb tm2 CbUnlock))
@@ -477,8 +529,9 @@ Definition step_gen (guarded : bool) (s : st) (l : lab) : option st :=
       end
   end.
 
-Definition step := step_gen true.        (* the code in /repo *)
-Definition step_old := step_gen false.   (* the historical unguarded rand.Int63n(2*jitter) *)
+Definition step := step_gen VCur.              (* the code in /repo *)
+Definition step_orig := step_gen VOrig.        (* the original next += Int63n(2*jitter) - jitter, guarded *)
+Definition step_old := step_gen VUnguarded.    (* the historical unguarded rand.Int63n(2*jitter) *)
 
 (* n goroutines, no ticker yet, clock 0 *)
 Definition tinit (n : nat) : st :=
@@ -486,12 +539,12 @@ Definition tinit (n : nat) : st :=
 
 (* the property's spacing clause on the ghost list of ticks (newest first): each tick is at least
    d - jitter after its predecessor, d and jitter being the ones in force when the timer that sent it
-   was scheduled (for documented arguments 0 <= jitter < d inside the int64 range: d + jitter <= max_i64) *)
+   was scheduled, for ALL documented arguments 0 <= jitter < d of type int64 (d <= max_i64) *)
 Fixpoint spaced (l : list (Z * Z * Z)) : Prop :=
   match l with
   | (t2, d2, j2) :: tl =>
       match tl with
-      | (t1, _, _) :: _ => (0 <= j2 < d2 -> d2 + j2 <= max_i64 -> d2 - j2 <= t2 - t1) /\ spaced tl
+      | (t1, _, _) :: _ => (0 <= j2 < d2 -> d2 <= max_i64 -> d2 - j2 <= t2 - t1) /\ spaced tl
       | [] => True
       end
   | [] => True
@@ -598,9 +651,11 @@ Definition st_eqb (a b : st) : bool :=
   && optz_eqb (buf a) (buf b) && list_eqb tpc_eqb (thr a) (thr b)
   && list_eqb tick_eqb (sent a) (sent b) && list_eqb Z.eqb (recvd a) (recvd b) && Bool.eqb (stopped a) (stopped b).
 
-(* Internal labels tried by the matcher.  The oracle of rand.Int63n is fixed to r = 0: it gives the
-   earliest timer deadline, and a timer may fire arbitrarily later than its deadline, so every history
-   producible with another r is producible with r = 0 (r = 0 is the only value when Int63n is not called). *)
+(* Internal labels tried by the matcher.  The oracle of the two rand draws is fixed to r = 0 (sign bit 1,
+   magnitude jitter-1: offset -jitter): it gives the earliest timer deadline (the delay is monotone in r for
+   int64 arguments, XTimeMatcher.oracle_safe_int64), and a timer may fire arbitrarily later than its
+   deadline, so every history producible with another r is producible with r = 0 (r = 0 is the only value
+   when rand is not called).  The recorded tick timestamps then decide when the timers fire ([mstep]). *)
 Definition tau_labels (s : st) : list lab :=
   flat_map (fun th => [TValidate th; TLock th; TBodySched th 0; TBodyStop th; TUnlock th]) (seq 0 (length (thr s)))
   ++ flat_map (fun k => [TFire k; TCbLock k; TCbSend k; TCbSchedule k 0; TCbUnlock k]) (seq 0 (length (timers s))).
